@@ -9,6 +9,31 @@
 //   * distinct (source chain, message id) pairs have independent records;
 //   * approve -> approved -> consumed once -> executed, never back.
 use super::*;
+// named explicitly: the harness must not depend on which of these the file under verification happens to import
+use crate::error::ContractError;
+use crate::interface::AxelarGatewayInterface;
+use crate::messaging_interface::AxelarGatewayMessagingInterface;
+use crate::types::CommandType;
+use crate::types::Message;
+use crate::types::Proof;
+use crate::types::WeightedSigners;
+use crate::auth;
+use crate::event;
+use axelar_soroban_std::ttl::extend_instance_ttl;
+use axelar_soroban_std::ensure;
+use axelar_soroban_std::interfaces;
+use axelar_soroban_std::Operatable;
+use axelar_soroban_std::Ownable;
+use axelar_soroban_std::Upgradable;
+use soroban_sdk::xdr::ToXdr;
+use soroban_sdk::contract;
+use soroban_sdk::contractimpl;
+use soroban_sdk::Address;
+use soroban_sdk::Bytes;
+use soroban_sdk::BytesN;
+use soroban_sdk::Env;
+use soroban_sdk::String;
+use soroban_sdk::Vec;
 use soroban_sdk::shim::{self, Wordy};
 
 type G = AxelarGateway;
